@@ -136,6 +136,24 @@ def r4a_decoder_tables(ctx, F):
                     ctx.violation("table-row|%s%s" % (key, "|call-flag" if callpath else ""), fn.loc(),
                                   "block stack table, %s side, %s%s: the builder gives %s but the documented row (decoder/constraints.md:%d) is %s"
                                   % ("removal" if side == "u" else "insertion", op, " (path %s)" % rest if rest else "", val, D.line, want))
+    # which function hash the system columns hold during the callee's body: from System::start_call / start_syscall
+    body_hash = {}
+    sysadt = F.adt(r"^miden_processor::system::System$")
+    sf = [f["name"] for f in sysadt["variants"][0]["fields"]]
+    for op_, fnpat, args_ in (("Call", r"^miden_processor::system::System::start_call$", [Agg([Poly.var("K%d" % i) for i in range(4)], "array")]),
+                              ("SysCall", r"^miden_processor::system::System::start_syscall$", [])):
+        sv = Agg([Agg([Poly.var("P%d" % i) for i in range(4)], "array") if n_ == "fn_hash" else (False if n_ == "in_syscall" else Term(n_)) for n_ in sf], "adt", sysadt["id"], sysadt["variants"][0]["name"])
+        try:
+            I_ = Interp(F)
+            procmodel.install_field(I_)
+            I_.call(F.fn(fnpat).id, [Ptr([sv], 0)] + args_)
+            fh = dict(zip(sf, sv.items))["fn_hash"]
+            names_ = [repr(x) for x in deref(fh).items]
+            body_hash[op_] = "callee" if names_ == ["K0", "K1", "K2", "K3"] else "parent" if names_ == ["P0", "P1", "P2", "P3"] else "?"
+        except (Unanalysable, PanicReached) as e:
+            body_hash[op_] = "?"
+            ctx.violation("UNANALYSABLE|start-context|%s" % op_, "processor/src/system/mod.rs", str(e)[:200])
+    ctx.sample({"fn_hash_during_callee_body": body_hash})
     # sibling rule for CALL / SYSCALL: the row inserted at the start equals, position by position, the row removed at END
     for op in ("Call", "SysCall"):
         ins = call_rows.get(("v", op), [])
@@ -157,13 +175,31 @@ def r4a_decoder_tables(ctx, F):
             elif 4 <= k <= 7:
                 ok = base(si) == base(sr) and sr == si + "'"
             elif k >= 8:
-                ok = re.sub(r"\D", "", si) == re.sub(r"\D", "", sr)
+                # positions 8..11 hold a function hash. Denote by P the hash of the function executing before the CALL / SYSCALL row
+                # (fn_hash columns at the start row = at the row after END, where it is restored) and by K the callee's hash
+                # (h0..h3 of the start row). During the callee's body the fn_hash columns hold K for CALL and stay P for SYSCALL
+                # (derived from System::start_call / start_syscall below). Both sides must denote the same hash element.
+                def denote(sym, side):
+                    m_ = re.match(r"^(h|fnh)(\d)('?)$", sym)
+                    if not m_:
+                        return None
+                    col, j, pr = m_.group(1), int(m_.group(2)), m_.group(3)
+                    if side == "ins":
+                        return ("K", j) if col == "h" and not pr else ("P", j) if col == "fnh" and not pr else None
+                    if col == "fnh" and pr:
+                        return ("P", j)
+                    if col == "fnh":
+                        return ("K", j) if body_hash[op] == "callee" else ("P", j)
+                    return None
+                di, dr = denote(si, "ins"), denote(sr, "rem")
+                ok = di is not None and di == dr and di[1] == k - 8
             else:
                 ok = si == sr
             ctx.oblig(ok)
             if not ok:
                 ctx.violation("call-tuple|%s|alpha%d" % (op, k), "processor/src/decoder/aux_trace/block_stack_table.rs",
-                              "block stack table row of %s: position %d holds %s on insertion but %s on removal" % (op, k, si, sr))
+                              "block stack table row of %s: position %d holds %s on insertion (start row) but %s on removal (END row)%s" % (op, k, si, sr,
+                              ("; during the body of a %s the fn_hash columns hold the %s's hash, so the two sides denote different values and the table cannot balance" % (op.upper(), body_hash.get(op))) if k >= 8 else ""))
     # ---------- block hash table
     D = decdocs.Formulas("block-hash")
     docv = {"Join": "vXjoin", "Split": "vXsplit", "Loop": "vXloop", "Repeat": "vXrepeat", "Dyn": "vXdyn"}
